@@ -14,3 +14,5 @@ open PgmVerif
 #print axioms PgmVerif.C04_wf_marginalize
 #print axioms PgmVerif.unravel_ravel
 #print axioms PgmVerif.ravel_unravel
+#print axioms PgmVerif.C04_scalar_ops
+#print axioms PgmVerif.C04_scalar_neutral
